@@ -3,6 +3,7 @@ package props
 import (
 	"fmt"
 	"math"
+	"math/big"
 	"testing"
 
 	"go.1password.io/spg"
@@ -94,6 +95,10 @@ func c13Run(c c13Case) error {
 		ref, err := findRef(r, c.Key, 300)
 		if err != nil {
 			if ev.IsSkip(err) {
+				// 300 forced generations, each with up to MaxTrials uniformly chosen candidates
+				if pf*float64(300) > 60 {
+					return fmt.Errorf("none of 300 generations driven by uniform index choices succeeded although a candidate satisfies the recipe with probability %.4g", pf)
+				}
 				return nil
 			}
 			return err
@@ -160,6 +165,9 @@ func c13Run(c c13Case) error {
 		return nil
 	}
 	ev.Class("must_be_honoured")
+	if o.Err != nil && pRat.Cmp(big.NewRat(1, 1)) == 0 {
+		return fmt.Errorf("every candidate satisfies this recipe (no required set has a non-excluded member left unmet), yet Generate failed: %v", o.Err)
+	}
 	if o.Err != nil {
 		// only legitimate if the stream really exhausted the budget
 		nd := len(o.S.Draws)
